@@ -31,7 +31,41 @@ def classes_from_tlc(run):
         cls.add((int(m.group(1)), int(m.group(2)), m.group(3) == "TRUE", m.group(4) == "TRUE", m.group(5) == "TRUE", m.group(6) == "TRUE"))
     if not cls:
         raise ToolError("HashOrder.tla emitted no class")
+    # site 5 (first invalid entry of a validating walk): (entries, invalid entries, sensitive)
+    global INVALID_CLASSES
+    INVALID_CLASSES = sorted(set((int(m.group(1)), int(m.group(2)), m.group(3) == "TRUE")
+                                 for m in re.finditer(r'<<"CLASS5", (\d+), (\d+), (TRUE|FALSE)>>', out)))
+    if not any(c[2] for c in INVALID_CLASSES):
+        raise ToolError("HashOrder.tla emitted no sensitive class for site 5")
     return sorted(cls)
+
+
+INVALID_CLASSES = []
+
+
+def invalid_template_inputs(base):
+    """Site 5: a CSV configuration in which `invalid` of `n` fields carry a template that cannot be parsed; okane import must
+    name the same one every time (the error path of FieldMap::try_new)."""
+    jobs = []
+    fields = ["payee", "note", "category", "commodity"]
+    for (n, invalid, sensitive) in INVALID_CLASSES:
+        if not sensitive or n > len(fields) or invalid > n:
+            continue
+        d = os.path.join(base, "tmpl_n%d_i%d" % (n, invalid))
+        lines = []
+        for i, f in enumerate(fields[:n]):
+            if i < invalid:
+                lines.append("    %s:\n      template: \"{no_such_key_%d}\"\n" % (f, i + 1))
+            else:
+                lines.append("    %s:\n      template: \"fixed text %d\"\n" % (f, i + 1))
+        if "payee" not in fields[:n]:
+            lines.append("    payee: \"Text\"\n")
+        cy = ("path: stmt.csv\nencoding: UTF-8\naccount: \"Assets:Src\"\naccount_type: asset\ncommodity: USD\nformat:\n  date: \"%Y-%m-%d\"\n  fields:\n"
+              "    date: \"Date\"\n    amount: \"Amount\"\n" + "".join(lines))
+        cp = write(d, "config.yml", cy)
+        sp = write(d, "stmt.csv", "Date,Text,Amount\n2024-01-05,Shop,-1.00\n")
+        jobs.append(("invalid_templates n=%d invalid=%d" % (n, invalid), ["import", "-c", cp, sp]))
+    return jobs
 
 
 def write(d, name, text):
@@ -114,6 +148,13 @@ def build_inputs(base, classes, tier):
                     jobs.append(("print_amount n=%d" % n, args))
                 p = write(d, "assert.ledger", failing_assertion_ledger(n))
                 jobs.append(("error_text n=%d" % n, ["balance", p]))
+                if n >= 2:
+                    # a transaction that does not balance in n commodities of the same sign: the error shows the residual
+                    p = write(d, "unbalanced.ledger", "2024/01/01 t\n" + "".join("    Assets:W%d  %d %s\n" % (i, 100 - 10 * i, c) for i, c in enumerate(COMMODITIES[:n])) + "\n")
+                    for cmd in ("balance", "register"):
+                        jobs.append(("unbalanced n=%d" % n, [cmd, p]))
+                    p = write(d, "unbalanced0.ledger", "2024/01/01 t\n    Assets:W0  100 %s\n" % COMMODITIES[0] + "".join("    Assets:W%d  0 %s\n" % (i, c) for i, c in enumerate(COMMODITIES[1:n], 1)) + "\n")
+                    jobs.append(("unbalanced n=%d" % n, ["balance", p]))
                 p = write(d, "pair.ledger", implied_pair_ledger(n))
                 for c in COMMODITIES[:max(2, n)]:
                     jobs.append(("implied_pair n=%d" % n, ["balance", "-X", c] + now + [p]))
@@ -187,7 +228,7 @@ def check(run):
     shutil.rmtree(base, ignore_errors=True)
     os.makedirs(base)
     binary = okane_bin()
-    jobs = build_inputs(base, classes, run.tier) + corpus_inputs(base, run)
+    jobs = build_inputs(base, classes, run.tier) + invalid_template_inputs(base) + corpus_inputs(base, run)
     by_class = {}
     for label, args in jobs:
         outs = run_n(binary, args, n_runs)
@@ -199,7 +240,7 @@ def check(run):
                 run.report("crash_" + label.split(" ")[0], {"class": label, "argv": args, "_mode": "c13"}, {"status": o[0], "stderr": o[2].decode(errors="replace")[-500:]},
                            "crash: `okane %s` died with signal %d" % (" ".join(args), -o[0]))
                 break
-        expect_ok = not label.startswith(("error_text", "pick_single", "corpus", "missing_rate", "missing_labels")) and not (label.startswith("implied_pair") and "--historical" in args)
+        expect_ok = not label.startswith(("error_text", "pick_single", "corpus", "missing_rate", "missing_labels", "invalid_templates", "unbalanced")) and not (label.startswith("implied_pair") and "--historical" in args)
         if expect_ok and any(o[0] != 0 for o in outs):
             bad = next(o for o in outs if o[0] != 0)
             raise ToolError("generator defect: `okane %s` (class %s) is expected to succeed but fails: %s" % (" ".join(args), label, bad[2].decode(errors="replace")[-600:]))
